@@ -65,10 +65,15 @@ def _skycoord(sc):
         data = frame.data
         comps = []
         for cname in data.components:
-            comps.append([cname, canon(getattr(data, cname))])
+            comp = getattr(data, cname)
+            comps.append([cname, canon(comp),
+                          canon(getattr(comp, 'wrap_angle', None))])
         out.append([type(data).__name__, comps])
         diffs = getattr(data, 'differentials', None) or {}
-        out.append(sorted(diffs.keys()))
+        out.append([[k, type(diffs[k]).__name__,
+                     [[c, canon(getattr(diffs[k], c))]
+                      for c in diffs[k].components]]
+                    for k in sorted(diffs.keys())])
         out.append(getattr(frame.representation_type, '__name__', None))
     return out
 
@@ -107,6 +112,12 @@ def _wcs(w):
                     for n in ('a', 'b', 'ap', 'bp', 'crpix')]])
     for name in ('cpdis1', 'cpdis2', 'det2im1', 'det2im2'):
         fields.append([name, getattr(w, name, None) is not None])
+    try:
+        # everything wcslib knows (PV, PS, CROTA, dates, spectral keywords
+        # ...), as the header it would write
+        fields.append(['header', repr(w.to_header(relax=True))])
+    except Exception as exc:
+        fields.append(['header', type(exc).__name__])
     return ['wcs', fields]
 
 
@@ -121,21 +132,25 @@ def _artist(a):
         out.append(['codes', None if path.codes is None else
                     _arr(np.asarray(path.codes))])
         for name in ('edgecolor', 'facecolor', 'linewidth', 'linestyle',
-                     'fill', 'alpha', 'label', 'hatch', 'zorder', 'visible'):
+                     'fill', 'alpha', 'label', 'hatch', 'zorder', 'visible',
+                     'capstyle', 'joinstyle', 'clip_on'):
             out.append([name, canon(getattr(a, 'get_' + name)())])
+        out.append(['dashes', canon(getattr(a, '_dash_pattern', None))])
     elif isinstance(a, mlines.Line2D):
         out.append(['x', _arr(np.asarray(a.get_xdata(), dtype=float))])
         out.append(['y', _arr(np.asarray(a.get_ydata(), dtype=float))])
         for name in ('marker', 'markersize', 'markeredgecolor',
                      'markerfacecolor', 'markeredgewidth', 'fillstyle',
                      'color', 'linewidth', 'linestyle', 'alpha', 'label',
-                     'zorder', 'visible'):
+                     'zorder', 'visible', 'drawstyle', 'dash_capstyle',
+                     'clip_on'):
             out.append([name, canon(getattr(a, 'get_' + name)())])
     elif isinstance(a, mtext.Text):
         out.append(['pos', canon(tuple(float(v) for v in a.get_position()))])
         for name in ('text', 'rotation', 'color', 'fontsize', 'fontfamily',
                      'fontstyle', 'fontweight', 'ha', 'va', 'alpha',
-                     'zorder', 'visible'):
+                     'zorder', 'visible', 'label', 'usetex', 'rotation_mode',
+                     'clip_on'):
             out.append([name, canon(getattr(a, 'get_' + name)())])
     else:
         out.append(['repr', _ADDR.sub('0x', repr(a))])
@@ -150,9 +165,20 @@ def _table(t):
         val = getattr(col, 'value', None)
         if val is None:
             val = np.asarray(col)
+        info = getattr(col, 'info', None)
+        mask = getattr(col, 'mask', None)
         cols.append([name, str(unit) if unit is not None else None,
-                     _arr(np.asarray(val))])
-    return ['table', type(t).__name__, cols, canon(dict(t.meta))]
+                     _arr(np.asarray(val)), type(col).__name__,
+                     None if mask is None or mask is np.ma.nomask
+                     else _arr(np.asarray(mask)),
+                     repr(getattr(info, 'format', None)),
+                     repr(getattr(info, 'description', None)),
+                     repr(getattr(info, 'meta', None))[:200]])
+    try:
+        idx = [repr(i)[:80] for i in t.indices]
+    except Exception:
+        idx = None
+    return ['table', type(t).__name__, cols, canon(dict(t.meta)), idx]
 
 
 def canon(obj, _depth=0):
@@ -184,7 +210,8 @@ def canon(obj, _depth=0):
                 ['f0', np.asarray(obj.value).dtype.str,
                  np.asarray(obj.value).tobytes().hex()]]
     if isinstance(obj, np.ma.MaskedArray):
-        return ['ma', _arr(obj.data), _arr(np.ma.getmaskarray(obj))]
+        return ['ma', _arr(obj.data), _arr(np.ma.getmaskarray(obj)),
+                repr(obj.fill_value), bool(obj.hardmask)]
     if isinstance(obj, np.ndarray):
         return _arr(obj)
     if isinstance(obj, SkyCoord):
